@@ -8,12 +8,13 @@ MCNext ==
   \/ \E f \in BOOLEAN : Render(f) /\ last' = <<"Render", f>>
   \/ RenderPatch /\ last' = <<"RenderPatch">>
   \/ NewCmd /\ last' = <<"New">>
+  \/ \E d \in InitRenderDescs, f \in BOOLEAN : InitRender(d, f) /\ last' = <<"InitRender", d, f>>
   \/ \E d \in ExportDescs, ow \in BOOLEAN : Export(d, ow) /\ last' = <<"Export", d, ow>>
 MCSpec == MCInit /\ [][MCNext]_<<pvars, last>>
 (* an unforced render never changes sources that exist (stated on the command just issued) *)
 UnforcedRenderKeeps == [][(last'[1] = "Render" /\ ~last'[2] /\ tree # 0) => tree' = tree]_<<pvars, last>>
 (* a second `naunet init` changes nothing at all *)
-SecondInitIsInert == [][(last'[1] = "Init" /\ cfg # 0) => UNCHANGED pvars]_<<pvars, last>>
+SecondInitIsInert == [][(last'[1] \in {"Init", "InitRender"} /\ cfg # 0) => UNCHANGED pvars]_<<pvars, last>>
 (* an export without overwrite never touches an existing project *)
 PlainExportKeeps == [][(last'[1] = "Export" /\ ~last'[3] /\ cfg # 0) => UNCHANGED pvars]_<<pvars, last>>
 (* `naunet new` never touches a directory that holds a project *)
